@@ -25,7 +25,7 @@ func (a Addr) String() string  { return string(a) }
 // one direction.
 type Fault struct {
 	At   int    `json:"at"`
-	Kind string `json:"kind"` // drop | dup | hold | replay
+	Kind string `json:"kind"` // drop | dup | hold | replay | alien
 	Arg  int    `json:"arg"`  // dup: extra copies; hold: release after Arg later datagrams; replay: how many datagrams back
 }
 
@@ -34,6 +34,9 @@ type LinkCfg struct {
 	FaultsAB  []Fault `json:"faultsAB,omitempty"`
 	FaultsBA  []Fault `json:"faultsBA,omitempty"`
 	Budget    int     `json:"budget,omitempty"`
+	// Alien derives, for the fault kind "alien", a foreign look-alike of a datagram (nil: none);
+	// it is delivered 1 ms after the original. Set by the scenario executor, not part of the scenario.
+	Alien func(data []byte) []byte `json:"-"`
 }
 
 // Record is one wire-log entry.
@@ -62,6 +65,7 @@ type PacketLink struct {
 	held    [2][]held
 	history [2][][]byte
 	Storms  int
+	Aliens  int // foreign look-alikes actually delivered (fault kind "alien")
 	Drops   int
 }
 
@@ -171,10 +175,18 @@ func (l *PacketLink) send(dir int, data []byte) {
 	l.mu.Unlock()
 
 	switch fate {
-	case "deliver", "replay":
+	case "deliver", "replay", "alien":
 		l.deliverAfter(dir, data, 0)
 		if replay != nil {
 			l.deliverAfter(dir, replay, 1)
+		}
+		if fate == "alien" && l.cfg.Alien != nil {
+			if a := l.cfg.Alien(data); a != nil {
+				l.mu.Lock()
+				l.Aliens++
+				l.mu.Unlock()
+				l.deliverAfter(dir, a, 1)
+			}
 		}
 	case "dup":
 		for i := 0; i <= max(f.Arg, 1); i++ {
